@@ -75,6 +75,10 @@ func OperatorVariants() []Op {
 		&Extend{Cols: []Column{{Name: id("x"), X: xs[3]}, {X: xs[4]}, {Name: qid("y z"), X: xs[6]}}},
 		&Extend{Cols: []Column{{X: xs[8]}, {Name: id("w"), X: xs[7]}}},
 		&Extend{Cols: []Column{{X: xs[9]}, {X: xs[4]}}},
+		// the same identifier several times in one operator
+		&Extend{Cols: []Column{{X: &Binary{Op: "*", X: Col("a"), Y: &Paren{X: &Unary{Op: "-", X: Col("a")}}}}}},
+		&Extend{Cols: []Column{{X: Col("a")}, {X: &Binary{Op: "*", X: Col("b"), Y: &Paren{X: &Binary{Op: "*", X: NumLit("1", "1"), Y: &Unary{Op: "-", X: Col("b")}}}}}}},
+		&Extend{Cols: []Column{{X: Col("v")}, {Name: id("w"), X: &Paren{X: &Unary{Op: "-", X: Col("v")}}}}},
 	)
 	cnt := &Call{Func: "count"}
 	sum := &Call{Func: "sum", Args: []Expr{Col("b")}}
@@ -91,6 +95,8 @@ func OperatorVariants() []Op {
 		&Summarize{By: []Column{{Name: id("k"), X: Col("a")}, {X: xs[3]}}, HasBy: true},
 		&Summarize{Cols: []Column{{X: Col("a")}}, By: []Column{{X: Col("b")}}, HasBy: true},
 		&Summarize{Cols: []Column{{X: cnt}, {X: xs[4]}}},
+		&Summarize{Cols: []Column{{Name: id("n"), X: cnt}}, By: []Column{{X: QCol("my col")}, {X: Col("a")}}, HasBy: true},
+		&Summarize{Cols: []Column{{X: QCol("my col")}}, By: []Column{{X: &Name{Parts: []Ident{{Name: "t"}, {Name: "my col", Quoted: true}}}}}, HasBy: true},
 		&Summarize{Cols: []Column{{Name: id("n"), X: xs[9]}}, By: []Column{{X: xs[4]}}, HasBy: true},
 	)
 	right := []*Pipeline{
